@@ -801,6 +801,8 @@ fn main() {
         all.extend(cases.into_iter().map(|c| (c, None)));
         all.extend(all_extra.into_iter().map(|c| (c, None)));
         if prop != "C01" && !spec.links.is_empty() {
+            // `down` = 4 * link index + mode; mode 0: the topology is built with the link down, mode 1 / 2: the link is
+            // taken down on the built topology through the runtime API (`mut_scion_link`) named by its first / second end
             let n = all.len().min(args.scale(20, 200));
             for k in 0..n {
                 let li = rng.below(spec.links.len() as u64) as usize;
@@ -808,7 +810,21 @@ fn main() {
                 if c.honest {
                     let mut c2 = Case { kind: "link-down".into(), honest: false, features: c.features.clone(), path: c.path.clone(), dp: c.dp.clone(), ..*c };
                     c2.features.push("link-down");
-                    all.push((c2, Some(li)));
+                    all.push((c2, Some(4 * li + rng.below(3) as usize)));
+                }
+            }
+            // every link, named by either end, through the runtime API, on two offered paths each
+            let n_honest = all.iter().filter(|(c, _)| c.honest).count();
+            if n_honest > 0 {
+                for li in 0..spec.links.len().min(args.scale(12, 60)) {
+                    for mode in [1usize, 2] {
+                        let k = rng.below(n_honest as u64) as usize;
+                        let (c, _) = all.iter().filter(|(c, _)| c.honest).nth(k).unwrap();
+                        let mut c2 = Case { kind: "link-down".into(), honest: false, features: c.features.clone(), path: c.path.clone(), dp: c.dp.clone(), ..*c };
+                        c2.features.push("link-down");
+                        c2.features.push("link-down-api");
+                        all.push((c2, Some(4 * li + mode)));
+                    }
                 }
             }
         }
@@ -817,9 +833,21 @@ fn main() {
             let (c, down) = (&c, &down);
             let topo_used;
             let mut spec_used = spec.clone();
-            let topo_ref: &ScionTopology = if let Some(li) = down {
-                spec_used.links[*li].up = false;
-                topo_used = match build_topo(&spec_used) { Ok(t) => t, Err(_) => continue };
+            let topo_ref: &ScionTopology = if let Some(d) = down {
+                let (li, mode) = (*d / 4, *d % 4);
+                spec_used.links[li].up = false;
+                if mode == 0 {
+                    topo_used = match build_topo(&spec_used) { Ok(t) => t, Err(_) => continue };
+                } else {
+                    let mut t = match build_topo(spec) { Ok(t) => t, Err(_) => continue };
+                    let l = &spec.links[li];
+                    let (ia, ifid) = if mode == 1 { (l.a, l.a_if) } else { (l.b, l.b_if) };
+                    match t.mut_scion_link(&ia, ifid) {
+                        Some(link) => link.set_is_up(false),
+                        None => rep.spec_fail("C13:link-state-api:no-such-link", &format!("mut_scion_link({ia}, {ifid}) finds no link although the topology has one"), json!({"topology": format!("{spec:?}")})),
+                    }
+                    topo_used = t;
+                }
                 send_topo(&mut lean, &spec_used);
                 &topo_used
             } else {
